@@ -73,4 +73,45 @@ def getFeaturesPinned (data : Bytes) : Webp.Impl.Parser.R Webp.Impl.Config.PubFe
     format := match p.features.format with
       | .vp8 => "lossy" | .vp8l => "lossless" | .vp8x => "extended" | .undefined => "unknown" }
 
+/-! files on which exactly one of `container.Parser` / `mux.Demuxer` accepts -/
+
+/-- VP8X header only (a still without image chunk) -/
+def dFrameless : Bytes := riff (chunk "VP8X" (vp8xPayload 0 2 3))
+/-- simple lossless, odd payload, *no* pad byte (RIFF size says so) -/
+def dNoPad : Bytes :=
+  tagBytes "RIFF" ++ putLE32 17 ++ tagBytes "WEBP" ++ tagBytes "VP8L" ++ putLE32 5 ++
+    vp8lPayload 4 5 false
+/-- ALPH followed by VP8L in a still -/
+def dAlphVP8L : Bytes :=
+  riff (chunk "VP8X" (vp8xPayload 0x10 4 5) ++ chunk "ALPH" [1, 2] ++
+    chunk "VP8L" (vp8lPayload 4 5 false))
+/-- unknown chunk between ALPH and VP8 -/
+def dAlphJunkVP8 : Bytes :=
+  riff (chunk "VP8X" (vp8xPayload 0x10 2 3) ++ chunk "ALPH" [1, 2] ++ chunk "JUNK" [7, 7] ++
+    chunk "VP8 " (vp8Payload 2 3))
+/-- VP8X chunk of 12 bytes -/
+def dLongVP8X : Bytes :=
+  riff (chunk "VP8X" (vp8xPayload 0 2 3 ++ [0, 0]) ++ chunk "VP8 " (vp8Payload 2 3))
+/-- reserved VP8X flag bit 0 set -/
+def dReservedFlag : Bytes :=
+  riff (chunk "VP8X" (vp8xPayload 0x01 2 3) ++ chunk "VP8 " (vp8Payload 2 3))
+/-- still followed by an ANMF chunk -/
+def dStillThenANMF : Bytes :=
+  riff (chunk "VP8X" (vp8xPayload 0 4 5) ++ chunk "VP8L" (vp8lPayload 4 5 false) ++
+    chunk "ANMF" (anmfPayload 0 0 4 5 100 0 (chunk "VP8L" (vp8lPayload 4 5 false))))
+/-- animation with a stray top-level VP8 chunk after the frames -/
+def dAnimStrayVP8 : Bytes :=
+  riff (chunk "VP8X" (vp8xPayload 0x02 8 8) ++ chunk "ANIM" (animPayload 0 7) ++
+    chunk "ANMF" (anmfPayload 0 0 4 5 100 0 (chunk "VP8L" (vp8lPayload 4 5 false))) ++
+    chunk "VP8 " (vp8Payload 2 3))
+/-- animation flag set, ANMF without a preceding ANIM chunk -/
+def dAnmfNoAnim : Bytes :=
+  riff (chunk "VP8X" (vp8xPayload 0x02 8 8) ++
+    chunk "ANMF" (anmfPayload 0 0 4 5 100 0 (chunk "VP8L" (vp8lPayload 4 5 false))))
+/-- animation whose last chunk is cut short (declared 40 bytes, 2 present) -/
+def dAnimTruncTail : Bytes :=
+  riff (chunk "VP8X" (vp8xPayload 0x02 8 8) ++ chunk "ANIM" (animPayload 0 7) ++
+    chunk "ANMF" (anmfPayload 0 0 4 5 100 0 (chunk "VP8L" (vp8lPayload 4 5 false))) ++
+    tagBytes "EXIF" ++ putLE32 40 ++ [1, 2])
+
 end Webp.Samples
